@@ -66,6 +66,14 @@ package zoekt
 //@   ensures result >= 0 && len(b.b) <= old(len(b.b))
 //@   assigns b.b, b.err
 
+// value: a plain 64-bit value - every decoded number is legal (only a
+// malformed varint is an error); it only ever shortens the input.
+//@ func zoekt.(*binaryReader).value
+//@   flag int64=wrap
+//@   requires b != nil
+//@   ensures 0 <= result && result < 18446744073709551616 && len(b.b) <= old(len(b.b))
+//@   assigns b.b, b.err
+
 //@ func zoekt.(*binaryReader).count
 //@   flag int64=wrap
 //@   requires b != nil
